@@ -118,7 +118,7 @@ func errToCoq(err error) string {
 // log as a protocase term for Corr/Proto.v.  ok=false when the trace contains
 // something the protocol model does not cover (then no case is emitted).
 func (r *Run) ProtoCase() (string, bool) {
-	if r.Concurrent {
+	if r.Concurrent || r.Faulted {
 		return "", false
 	}
 	ranks := r.actorRanks()
